@@ -15,7 +15,7 @@ RULE = ("TLC builds applications item by item (exhaustive: every order of <=2/3 
         "misses, with and without Access-Control-Request-Headers and Origin); the harness adds seeded random scenarios (<=4 applications, two "
         "mount levels, <=8 routes, 8 header names); non-trivial = the application registers some path more than once (split registration or "
         "merged applications), or has a mount, or two different patterns match one of the requested paths")
-TRACE = ("Trace_Cors", "Trace_Cors.cfg")
+TRACE = ("Trace_Cors", "Trace_Cors_repair.cfg")   # the mechanism model with the repair of dd0cb62 (drift is measured against it)
 SUB = "cors"
 
 
